@@ -1,5 +1,6 @@
 import CoclsModel.Proto
 import CoclsModel.Async
+import CoclsModel.AsyncRace
 /-! Driver for C04: runs the `async<T>` life-cycle model on the harness input (same grammar as harness/h_async.cpp).
 After every driver operation the coroutines are stepped until none can move (the real code has flushed its ready
 queue / joined its helper thread by then; the result does not depend on the order, only the driver resolves futures). -/
@@ -184,10 +185,119 @@ def doEnd (d : DState) : String :=
     | none => none
   (finishLine d { d with s := s3 } "end" hang).2
 
+/-! ### T-style cases (`case <id> asynct <T>`): the micro-step race model under the baton scheduler's pick rule -/
+namespace Race
+open Cocls.AsyncRace
+
+def parseKind (ws : List String) : Option Kind :=
+  let n := (ws[2]?.bind (·.toNat?)).getD 0
+  match ws with
+  | "t" :: "start" :: _ => some (Kind.start n)
+  | "t" :: "startw" :: _ => some (Kind.startw n)
+  | "t" :: "startx" :: _ => some (Kind.startx n)
+  | "t" :: "value" :: _ => some (Kind.value n)
+  | "t" :: "exc" :: _ => some (Kind.exc n)
+  | "t" :: "dtor" :: _ => some Kind.dtor
+  | "t" :: _ :: _ => some Kind.drop
+  | _ => none
+
+def ptrStr (b : Bool) : String := if b then "ptr" else "null"
+
+def evStr : Ev → String
+  | Ev.xchgOwner a had => s!"s {a} xchg owner {ptrStr had}>null"
+  | Ev.loadOwner a had => s!"s {a} load owner {ptrStr had}"
+  | Ev.xchgSlot a => s!"s {a} xchg slot null>ready"
+  | Ev.loadGate a => s!"s {a} load gate null"
+  | Ev.casGate a => s!"s {a} cas+ gate null>ptr"
+  | Ev.waitBlock a => s!"s {a} wait-block others"
+  | Ev.body a => s!"body t{a}"
+  | Ev.bodyend a => s!"bodyend t{a}"
+  | Ev.argd a => s!"argd t{a}"
+  | Ev.ret a r => s!"ret t{a} {boolStr r}"
+  | Ev.fin a => s!"s {a} fin"
+
+/-- the baton scheduler's choice: the named thread if enabled, else the next enabled one cyclically -/
+def pick (c : Cfg) (s : AsyncRace.State) (want : Option Nat) : Option Nat :=
+  match want with
+  | some w => ((List.range c.n).map (fun k => (w + k) % c.n)).find? (enabled c s)
+  | none => (List.range c.n).find? (enabled c s)
+
+partial def runSched (c : Cfg) (s : AsyncRace.State) (sched : List Nat) (acc : Array String) (fuel : Nat) :
+    AsyncRace.State × Array String × Bool :=
+  if fuel = 0 then (s, acc, true) else
+  if (List.range c.n).all (fun i => s.pc i == Pc.fin) then (s, acc, false) else
+  let (want, rest) := match sched with
+    | w :: r => (some (w % c.n), r)
+    | [] => (none, [])
+  match pick c s want with
+  | none => (s, acc, true)
+  | some t =>
+    let (s', evs) := AsyncRace.step c s t
+    runSched c s' rest (acc ++ (evs.map evStr).toArray) (fuel - 1)
+
+def outcomeStr (isVoid : Bool) : Option (Option Outcome) → String
+  | none => "pending -"
+  | some x => "ready " ++ (match x with
+      | some (Outcome.val v) => if isVoid then "v" else s!"v:{v}"
+      | some (Outcome.exc e) => s!"exc:{e}"
+      | _ => "canceled")
+
+def runCase (hdr : List String) (body : List (List String)) : List String := Id.run do
+  let isVoid := hdr[3]? == some "void"
+  -- at most one thread may destroy the promise object
+  let kindsAll := body.filterMap parseKind
+  let mut kinds : Array Kind := #[]
+  for k in kindsAll do
+    if !(k == Kind.dtor && kinds.contains Kind.dtor) then kinds := kinds.push k
+  let sched := (body.filter (fun w => w.head? == some "sched")).flatMap (fun w => (w.drop 1).filterMap String.toNat?)
+  let n := kinds.size
+  if n == 0 then return ["end"]
+  let cfg : Cfg := { n := n, kind := fun i => kinds[i]?.getD Kind.drop }
+  let (s, out, dead) := runSched cfg {} sched #[] 10000
+  if dead then return out.toList ++ ["deadlock", "end"]
+  let mut out := out.push "run-end"
+  let mut fut := s.fut
+  let mut argd : Array Nat := (Array.range n).map s.argDtors
+  if !kinds.contains Kind.dtor then
+    out := out.push "promise-destroyed"
+    if s.owner then fut := some none
+  if kinds.any (fun k => match k with | Kind.startw _ => true | _ => false) then
+    out := out.push "gate-open"
+    for i in List.range n do
+      if s.suspended i then
+        out := (out.push s!"bodyend t{i}").push s!"argd t{i}"
+        fut := some (cfg.kind i).payload
+        argd := argd.set! i (argd[i]! + 1)
+  out := out.push "cleanup"
+  for i in List.range n do
+    if (cfg.kind i).isStart && s.claimed i != some true then
+      out := out.push s!"argd t{i}"
+      argd := argd.set! i (argd[i]! + 1)
+  out := out.push ("final " ++ outcomeStr isVoid fut)
+  for i in List.range n do
+    out := out.push s!"count t{i} body={s.bodyStarts i} argd={argd[i]!}"
+  return out.toList ++ ["end"]
+
+end Race
+
+/-- collect the lines of a T-style case up to `end` -/
+partial def collectT (lines : Array String) (i : Nat) (acc : List (List String)) : Nat × List (List String) :=
+  if h : i < lines.size then
+    let ws := words lines[i]
+    if ws == ["end"] then (i + 1, acc.reverse)
+    else if ws.head? == some "case" then (i, acc.reverse)
+    else collectT lines (i + 1) (if ws.isEmpty then acc else ws :: acc)
+  else (i, acc.reverse)
+
 partial def loop (lines : Array String) (i : Nat) (st : Option DState) : IO Unit := do
   if h : i < lines.size then
     let ws := words lines[i]
     match ws, st with
+    | ("case" :: id :: "asynct" :: _), _ =>
+        IO.println s!"case {id}"
+        let (j, body) := collectT lines (i + 1) []
+        for l in Race.runCase ws body do IO.println l
+        loop lines j none
     | ("case" :: id :: "async" :: ty :: rest), _ =>
         IO.println s!"case {id}"
         let n := (rest.head?.bind (·.toNat?)).getD 0
